@@ -103,6 +103,54 @@ def truncated(ctx, n, do_model=True):
             one_case(ctx, kind, js, do_model=do_model)
 
 
+LOCALE_CHILD = r"""
+import sys, os, tempfile
+sys.path.insert(0, sys.argv[1])
+from lithium import testcases as T
+files = [b"caf\xc3\xa9\n\xe2\x82\xac uro\n", b"// DDBEGIN \xc5\x81\nx = '\xc3\xa9';\n// DDEND\n", b"\xff\xfe\n\xe9\n", b"<a b=\"\xc3\xbc\">\n",
+         b"plain ascii\n"]
+bad = []
+d = tempfile.mkdtemp()
+try:
+    for cls in (T.TestcaseLine, T.TestcaseChar, T.TestcaseSymbol, T.TestcaseJsStr, T.TestcaseAttrs):
+        for i, data in enumerate(files):
+            p = os.path.join(d, "in.txt"); open(p, "wb").write(data)
+            try:
+                t = cls(); t.load(p)
+                q = os.path.join(d, "out.txt"); t.dump(q)
+                back = open(q, "rb").read()
+                if back != data or t.before + b"".join(t.parts) + t.after != data:
+                    bad.append("%s file %d: wrote back %r" % (cls.__name__, i, back))
+            except Exception as exc:
+                bad.append("%s file %d: %s: %s" % (cls.__name__, i, type(exc).__name__, exc))
+finally:
+    import shutil; shutil.rmtree(d, ignore_errors=True)
+print(sys.getfilesystemencoding())
+for b in bad: print("BAD " + b)
+"""
+
+
+def other_locale(ctx):
+    """the bytes of a file do not depend on the locale Lithium is started in: the same loads in a child interpreter whose
+    filesystem encoding is ASCII (LC_ALL=C, UTF-8 mode off)"""
+    import os
+    import subprocess
+    import sys
+    env = dict(os.environ, LC_ALL="C", LANG="C", PYTHONUTF8="0", PYTHONCOERCECLOCALE="0")
+    p = subprocess.run([sys.executable, "-c", LOCALE_CHILD, str(common.REPO / "src")], env=env, capture_output=True, text=True, timeout=120)
+    ctx.evaluations += 1
+    ctx.bump("other-locale")
+    lines = p.stdout.splitlines()
+    if p.returncode != 0 or not lines:
+        ctx.fail("load-raises", f"the loads under LC_ALL=C did not run: {p.stderr[-300:]}", dict(locale="C"))
+        return
+    ctx.notes.append(f"child interpreter filesystem encoding: {lines[0]}")
+    for l in lines[1:]:
+        if l.startswith("BAD "):
+            ctx.fail("roundtrip", f"under LC_ALL=C (filesystem encoding {lines[0]}): {l[4:]}", dict(locale="C", what=l[4:120]))
+            break
+
+
 def search(ctx):
     truncated(ctx, 3000, do_model=False)
     for data in loaders.all_strings(ALPHABET, 3):
@@ -130,6 +178,7 @@ def run(ctx) -> int:
         for kind in loaders.KINDS:
             one_case(ctx, kind, d)
     truncated(ctx, 6000 if ctx.thorough else 500)
+    other_locale(ctx)
     return common.decide(ctx, proof, RULE, search=search)
 
 
